@@ -339,7 +339,7 @@ fn push_sort_keys(keys: &[SortKeySpec]) -> Vec<push::SortKey> {
 }
 
 /// One push operator for one logical op. `spill`: manager + threshold for the spillable variants.
-fn push_op(o: &Op, cfg: &Cfg, spill: Option<&Arc<SpillManager>>) -> Vec<Box<dyn PushOperator>> {
+pub fn push_op(o: &Op, cfg: &Cfg, spill: Option<&Arc<SpillManager>>) -> Vec<Box<dyn PushOperator>> {
     match o {
         Op::Filter { col, cmp, lit } => vec![Box::new(FilterPushOperator::column_compare(*col, push_cmp(*cmp), lit.to_value()))],
         Op::Project { cols } => {
